@@ -46,26 +46,3 @@ Proof.
     destruct (s_bgk s =? 1); cbn [andb]; [|reflexivity]. destruct ((7 <? s_bgn s) && bbb); reflexivity.
 Qed.
 
-(* witness: bottom row "ab" followed by a run that holds only U+0301 (no column) on a 2x1 screen without BCE:
-   _last_row takes the zero-column run as Z and 'b' as Y, draws "a", the mark (it joins 'a'), then inserts 'b' *)
-Definition any_cfg : cfg := mkCfg true false false false [(0, default_spec); (0, default_spec)].
-Definition any_row : crow := [(0, 0, [(97, 1); (98, 1)]); (1, 0, [(769, 0)])].
-
-Lemma any_text_refuted_lemma : ~ draw_paints_any_text_full.
-Proof.
-  intros H.
-  assert (Hc : cfg_ok any_cfg).
-  { unfold cfg_ok, any_cfg. cbn. repeat constructor; cbn; intros; discriminate. }
-  assert (HS : Sync any_cfg (init_scr false) (new_term 2 1)).
-  { apply sync_start. unfold term_start_ok. splits; auto; try discriminate. apply term_ok_new; lia. }
-  assert (Hcan : canvas_any any_cfg 2 1 [any_row]).
-  { unfold canvas_any, any_row, chr_any. cbn.
-    repeat first [apply Forall_nil | apply Forall_cons | split | discriminate | lia | exact I | (left; reflexivity)
-                 | (right; split; [reflexivity|left; reflexivity])]. }
-  destruct (H any_cfg (init_scr false) (new_term 2 1) 2 1 [any_row] None Hc HS eq_refl eq_refl Hcan I)
-    as (toks & s' & E & (_ & Hg) & _).
-  vm_compute in E. inversion E; subst toks s'. clear E.
-  specialize (Hg 0 any_row eq_refl). vm_compute in Hg.
-  inversion Hg as [|e g l1 l2 Hv _]; subst. vm_compute in Hv.
-  destruct Hv as (_ & _ & Hcomb & _). discriminate.
-Qed.
